@@ -217,8 +217,8 @@ theorem collectArgs_footnote (T : PTables) (mac : MacroDef) (lb rb : Tok) (body 
     (hb : ∀ t ∈ body, PlainTok t) (hne : body ≠ []) :
     collectArgs T mac ['O', 'A'] 0 (lb :: (body ++ rb :: rest)) start {} st
       = .ok (({ args := [footDflt mac start, body], extr := [[], body], langs := [] }, rest), st) := by
-  have h1 : txtIs lb "[" = false := by simp [txtIs, hlb.txt]
-  have h2 : txtIs lb "}" = false := by simp [txtIs, hlb.txt]
+  have h1 : txtIsNV lb "[" = false := by simp [txtIsNV, hlb.txt]
+  have h2 : txtIsNV lb "}" = false := by simp [txtIsNV, hlb.txt]
   simp only [collectArgs, skipSpace_brace lb _ hlb, skippedLangs_brace lb _ hlb, List.head?_cons,
     h1, h2, show ('O' == '*') = false by decide, show ('O' == 'O') = true by decide,
     show ('A' == '*') = false by decide, show ('A' == 'O') = false by decide,
@@ -334,8 +334,8 @@ theorem expandMacro_footnote (T : PTables) (fuel : Nat) (mac : MacroDef) (fn lb 
     (hf : body.length + 4 ≤ fuel) :
     expandMacro T (fuel + 2) (lb :: (body ++ rb :: rest)) fn false st
       = .ok (([mkAction fn.pos], rest), addFlow st body) := by
-  have hsk : skipSpaceStopLang (lb :: (body ++ rb :: rest)) = lb :: (body ++ rb :: rest) := by
-    simp [skipSpaceStopLang, hlb.notSpace]
+  have hsk : skipSpaceStopLangAct (lb :: (body ++ rb :: rest)) = lb :: (body ++ rb :: rest) := by
+    simp [skipSpaceStopLangAct, hlb.notSpace]
   rw [expandMacro.eq_2]
   show M.bind' M.get _ st = _
   simp only [M.bind', M.get, hfn.txt, hmac, hsk]
